@@ -19,7 +19,8 @@ double-execution defect looped under one table)."""
 ASBUILT["C02"] = """**As built (C02 and C03 share `vlib/c02.py`).** `spec/PathMatch.tla` (reference relations `AllMay`/`AllMust`, `WellFormed`, `Delimited`, `NoExtra`,
 `RestDroppable`), `PathMatch_Gen.tla` (+ pools small/mid/full, `ExtraPats`, the C03 lemma as an invariant), `harness/c02_test.go`. Quick: 467 k
 (pattern, path, config) cases, 35 s; thorough ~5 min. Both statements are decided from one replay; the verdict is split by the kind of
-disagreement. Fixed on the way: `ec56936`, `e188dc8` (C02), `11a0cd5`, `6150301`, `d91bf3b` (C03)."""
+disagreement. Values include a non-ASCII letter in both spellings (three bytes `B+E2 B+84 B+AA`, and `%E2%84%AA` decoded under `UnescapePath`), and a
+two-byte delimiting literal whose first byte also occurs in values. Fixed on the way: `ec56936`, `e188dc8` (C02), `11a0cd5`, `6150301`, `d91bf3b` (C03)."""
 ASBUILT["C04"] = """**As built.** `spec/Mount.tla` (+ `MC_Mount*.cfg`; actions `AddRoute`, `Open(group|mount)`, `Close`, `Rebuild` -- a request served between two
 registrations, which forces the route tree to be rebuilt while mounts are pending), `harness/c04_test.go` building every program three ways
 (mounts before / after population -- the former with the prefix in its list form `Use([]string{p}, sub)` --, groups, flat). Quick 165 k
@@ -40,7 +41,9 @@ ASBUILT["C06"] = """**As built.** `spec/Immutable.tla` (+ mutant config: an alia
 as a *forward* replay (TLC enumerates option x request shape x reuse history; the driver captures 25 accessor values without copying, serves
 the later requests on the same `RequestCtx`, compares every captured value with its byte copy) rather than the backward trace validation
 sketched above -- every step is deterministic, so the prescribed observation is simply "unchanged". Fixed: `c9b6730` (binders), `c2dc3cb`
-(`Params`). False alarm corrected: `Host` is lower-cased by fasthttp in place; the comparison is against the value as first read."""
+(`Params`). After the seeded changes the specification gained a `working` phase: `Churn` steps stand for the handler using helpers that write to
+the context's scratch buffers (`Links`, `String`, `Attachment`, `GetRouteURL`) and `StableInHandler` requires the values taken before to
+read the same at the end of the handler (`MC_Immutable_scratch.cfg`, an accessor backed by scratch memory, must fail); `Range().Type` joined the accessors. False alarm corrected: `Host` is lower-cased by fasthttp in place; the comparison is against the value as first read."""
 ASBUILT["C07"] = """**As built (level: exploration).** `spec/Wire.tla`: `Read1 -> Reject(st) | Dispatch(st, helper, arg) -> Second`, `Status(class)` the set of statuses a
 request class may be answered with, `Closing(st)` the connection fate as a function of the status, invariant `NoResponseAfterMalformed`; 14
 request classes x 16 helpers x 8 argument classes (CR, LF, CRLF + header line, CRLFCRLF + body, NUL, 6 KB, non-ASCII + CRLF, plain) x 5
@@ -61,14 +64,17 @@ False alarms corrected: `GET /o k HTTP/1.1` may be answered 404 (RFC 9112 3 allo
 strict parser rejects only CR, LF, NUL in values, not every control byte."""
 ASBUILT["C08"] = """**As built.** `spec/ErrorHandler.tla` + `MC_ErrorHandler.tla/.cfg` (`Configure`, `Raise`, `Deliver`; `ExactlyOnce`, `ChosenIsScoped`, `ChosenIsInnermost`),
 `harness/c08_test.go`: forests of <= 3 mounted apps over 7 confusable prefixes, every scenario run repeatedly on apps mounted parent-first and
-child-first, with the error raised by root middleware before the mounts, after them, or by a handler inside the mounted apps. 387 k states, 191 k scenarios, 45-80 s. Fixed: `b918f62`."""
+child-first, with the error raised by root middleware before the mounts, after them, or by a handler inside the mounted apps; two further
+apps carry a prefix with capitals and one written with a trailing slash at the mount call (forests with those are limited to two apps). 387 k states, 191 k scenarios, 45-80 s. Fixed: `b918f62`."""
 ASBUILT["C09"] = """**As built.** `spec/Negotiation.tla` (`Pick`, `FormatOutcome`, `ZeroNeverSelects`, `AbsentSelectsFirst`), `harness/c09_test.go` (4 spellings per abstract
 header; `Accepts` twice on a pooled context, `Format`). Token lists (`AcceptsCharsets/Encodings/Languages`) are enumerated as ranges with an empty subtype over three tokens that are no prefixes of
 one another. Bounds are explicit constants: quick 2 ranges x 2 offers (75 k cases), thorough 3 x 2 and a wider q / parameter pool 2 x 3 (3.3 M
 cases, 7 min; the first thorough configuration, 3 x 3 over the wide pool, was 87 M cases and was abandoned after 7 GB of output). False alarms corrected: `Format`'s 406 is a status, not an error; with an absent
 `Accept` the default handler of `Format` is not asserted."""
 ASBUILT["C10"] = """**As built.** `spec/TrustProxy.tla` (`Trusted`, output functions, `NonInterference`, `SecureIffHttps`, `ValidatedIPIsAnAddress`), `harness/c10_test.go` with
-`fakeConn`/`fakeTLSConn` supplying peer address and TLS state. 179 k states, 178 k cases, 20 s. Fixed: `a7429d1`, `b3a2d9c`."""
+`fakeConn`/`fakeTLSConn` supplying peer address and TLS state (IPv4 peers in 4-byte and 16-byte form), forwarded scheme values other than
+`https` (`ftp`, upper case), and a sibling application derived from `app.Config()` created before any request (outputs must not depend on
+other applications in the process). 179 k states, 178 k cases, 20 s. Fixed: `a7429d1`, `b3a2d9c`."""
 ASBUILT["C11"] = """**As built (level: exploration).** `spec/Binding.tla`: strings are sequences of *atoms* (the harness maps `amp`, `pct41`, `eacute`, `comma`, ... to
 bytes) so that the specification itself defines comma splitting; actions `SetPrior`, `SetStruct` (holder := `Enc(v)`: Del + Add per field -- a
 later SetStruct overrides an earlier one), `Send(mode)` (expect := `Dec(source, holder, split)`), `Bad(kind, mode)`; invariants `RoundTrip`
@@ -80,7 +86,7 @@ an in-memory connection and a handler binding from the same source, directly and
 requests, 46 s. Open finding `C11-cookie-holder-single-valued`. False alarms corrected: body codecs are not subject to comma splitting; with
 splitting on, comma-carrying values are outside the statement and are executed but not compared."""
 ASBUILT["C12"] = """**As built.** `spec/Flash.tla` + `MC_Flash.cfg` (clients `conforming` = net/http + cookiejar, `transparent` = byte-transparent peer, `inprocess`; an
-extra unrelated cookie; hostile cookie kinds), `harness/c12_test.go` with raw wire requests (`wireGet`). Hostile decodes are timed and their
+extra unrelated cookie; hostile cookie kinds; the redirect issued by `To`, `Route`, `Route` with queries, or `Back`), `harness/c12_test.go` with raw wire requests (`wireGet`). Hostile decodes are timed and their
 allocation measured; an out-of-memory death of the driver under its `ulimit -v` is converted into a violation for the hostile-cookie case
 that was running (that is the property's failure mode), every other death is exit 2. Fixed: `e12d1b6`, `4477c10`, (`6cd3566` under C05). Open
 findings `C12-raw-msgpack-cookie-conforming-client` and `C12-raw-msgpack-cookie-control-bytes`: the printable encoding that would repair them
@@ -115,6 +121,8 @@ fields" rule, what arrives per key / per file); drivers `c18asm_test.go`, `c18bo
 `def2740`, `335f592`, `fa3377b` (jar), `fbc241a` (hand-off), `fd7a868` (path parameter escaping). Open finding `C18-jar-path-direction`: the
 repository's own `Test_CookieJarGet` asserts the reversed path test. Harness errors corrected: a double `resp.Close()` put one Response
 into the pool twice; the identity of a pooled `*Request` is unreliable, so requests are mapped through the goroutine id at the second hook."""
-ASBUILT["C19"] = """**As built.** `spec/Cors.tla` (`Scope` constant), `harness/c19_test.go`. 25 k cases, 7-9 s. No defect found."""
-ASBUILT["C20"] = """**As built.** `spec/EncryptCookie.tla`, `harness/c20_test.go`. 5.6 k symbolic scenarios expanded to every byte / length of real ciphertexts. No defect
+ASBUILT["C19"] = """**As built.** `spec/Cors.tla` (`Scope` constant), `harness/c19_test.go`; all cases are served on one recycled `RequestCtx`, as on a keep-alive connection, so a header left behind by the previous
+response would show. 25 k cases, 7-9 s. No defect found."""
+ASBUILT["C20"] = """**As built.** `spec/EncryptCookie.tla`, `harness/c20_test.go`. 5.6 k symbolic scenarios expanded to every byte / length of real ciphertexts; the first handler may fail after setting its cookies (`outcome`), and `TestC20Conc` performs the
+first step from 8 clients at once on one middleware instance. No defect
 found. False alarm corrected: the binary value class is restricted to bytes a cookie value can carry."""
